@@ -319,14 +319,14 @@ def render_node(hist, steps):
 
 
 def render_linear(hist):
-    """One history applied step by step; the last operation additionally in world C."""
+    """One history applied step by step; named-property stores additionally in world C (fresh copies)."""
     src = [PRELUDE, prefix_code("A", hist[:1]), prefix_code("P", hist[:1], True),
            'print("W", 0, "A"); dump(A); print("W", 0, "P"); dump(P);']
     d0 = dump_lines(hist[0]["d"], True)
     exp = {(0, "A"): d0, (0, "P"): d0}
     for n in range(1, len(hist)):
         code, e = step_block(n, hist[n], hist[n - 1]["d"], None)
-        if n == len(hist) - 1 and hist[n]["op"]["k"] in CACHED_SITE_KINDS:
+        if hist[n]["op"]["k"] in CACHED_SITE_KINDS:
             pre = hist[:n]
             code = ('%s %s var f%d = function (T) { %s }; PR = NOP; try { f%d(C0); } catch (e) {} PR = print; '
                     'print("W", %d, "C"); CUR = C1; try { f%d(C1); } catch (e) { perr(e); } dump(C1);\n'
@@ -626,13 +626,34 @@ def report(ck, binary, failing):
         ck.failure(sig({"history": sh, "worlds": worlds, "panic": bool(fatal and fatal.get("what") == "panic")}), detail)
 
 
-def run(tier, replay=None):
-    ck = vlib.Check("C14", tier, "model_checking", replay)
-    bindir = vlib.build_harness(["hjs"])
-    binary = os.path.join(bindir, "hjs")
-    stats = {"lines": 0, "blocks": 0}
-    cfg = "MCArray_quick.cfg" if tier == "quick" else "MCArray_thorough.cfg"
-    r, out = emit(cfg, 8, 1700, coverage=(tier == "thorough"))
+def check_linear(binary, model_hists, stats):
+    """Long histories: only the first failing step counts (afterwards the states differ). Returns failing list."""
+    failing = []
+    for h, (f, fatal, src) in zip(model_hists, fails_linear(binary, model_hists)):
+        stats["lines"] += sum(len(s["d"]["ix"]) + 3 for s in h)
+        stats["blocks"] += 3 * len(h)
+        if fatal is not None and fatal["what"] == "panic":
+            failing.append((ops_of(h), "A", fatal, None))
+            continue
+        if f:
+            n0 = min(n for n, w, d in f)
+            for n, w, d in f:
+                if n == n0:
+                    failing.append((ops_of(h[:n0 + 1]), w, d, h[n0 - 1]["d"] if n0 > 0 else None))
+        elif fatal is not None:
+            failing.append((ops_of(h), "A", fatal, None))
+    return failing
+
+
+def random_histories(rng, lits, ops, count, length):
+    out = []
+    for _ in range(count):
+        out.append([{"k": "lit", "els": rng.choice(lits)}] + [rng.choice(ops) for _ in range(length)])
+    return out
+
+
+def tlc_nodes(ck, cfg, tier, timeout):
+    r, out = emit(cfg, 8, timeout, coverage=False)
     for nc in out["NOCOMMUTE"][:5]:
         vlib.log("NOCOMMUTE", json.dumps(nc)[:600])
     vlib.tlc_must_pass(r, "ArrayStorage/" + cfg)
@@ -640,23 +661,97 @@ def run(tier, replay=None):
     if len(nodes) != r["distinct"]:
         raise vlib.ToolError(f"expected one NODE record per distinct state, got {len(nodes)} for {r['distinct']}")
     edges = sum(len(n["steps"]) for n in nodes)
-    vlib.log(f"[tlc] {cfg}: {r['distinct']} states, {edges} edges in {r['wall']:.0f}s")
-    failing = check_nodes(ck, binary, nodes, stats)
-    nt = sum(len(n["steps"]) for n in nodes if nontrivial_node(n))
+    vlib.log(f"[tlc] {cfg}: {r['distinct']} states, {edges} edges (state x operation), wall {r['wall']:.0f}s")
+    return r, nodes, edges
+
+
+def run(tier, replay=None):
+    ck = vlib.Check("C14", tier, "model_checking", replay)
+    bindir = vlib.build_harness(["hjs"])
+    binary = os.path.join(bindir, "hjs")
+    stats = {"lines": 0, "blocks": 0}
+
+    if replay:
+        det = json.load(open(replay)).get("detail", {})
+        ops = det.get("history")
+        if not ops:
+            raise vlib.ToolError("replay file has no history")
+        model = oracle([ops])
+        report(ck, binary, check_linear(binary, model, stats))
+        return ck.finish()
+
+    # ---- model gate of the reference model (invariants + action properties of the Array exotic object)
+    g = vlib.run_tlc(os.path.join(vlib.SPEC, "objects", "MCArraySpec.tla"), "MCArraySpec.cfg", workers=8, timeout=1500)
+    vlib.tlc_must_pass(g, "ArraySpec/MCArraySpec.cfg")
+    states, transitions = g["distinct"], g["states"]
+    cmds = [g["cmd"]]
+    if tier == "thorough":
+        g2 = vlib.run_tlc(SPEC, "MCArray_refine.cfg", workers=8, timeout=1500)
+        vlib.tlc_must_pass(g2, "ArrayStorage => ArraySpec (MCArray_refine.cfg)")
+        states += g2["distinct"]; transitions += g2["states"]
+        cmds.append(g2["cmd"])
+
+    # ---- exhaustive part: every (state, operation) edge; TLC checks commutation + storage invariants and emits
+    cfgs = ["MCArray_quick.cfg"] if tier == "quick" else ["MCArray_thorough.cfg", "MCArray_wide.cfg"]
+    all_nodes = []
+    edges_total = 0
+    seen_states = set()
+    for cfg in cfgs:
+        r, nodes, edges = tlc_nodes(ck, cfg, tier, 1700)
+        states += r["distinct"]; transitions += edges
+        cmds.append(r["cmd"])
+        all_nodes += nodes
+        edges_total += edges
+        report(ck, binary, check_nodes(ck, binary, nodes, stats))
+    nt = sum(len(n["steps"]) for n in all_nodes if nontrivial_node(n))
     kinds = {}
-    for nd in nodes:
+    for nd in all_nodes:
         for st in nd["steps"]:
             kinds.setdefault(nd["h"][-1]["kind"], set()).add(st["op"]["k"])
-    report(ck, binary, failing)
-    ck.cov.update(states=r["distinct"], transitions=edges, traces_validated_against_impl=edges,
-                  evaluations=stats["lines"], worlds_blocks=stats["blocks"], distinct_nontrivial=nt,
-                  checker_cmd=r["cmd"], forms_x_operations={k: len(v) for k, v in sorted(kinds.items())},
-                  rule="one replay per edge (state x operation) of the storage-shaped state graph, each in three worlds "
-                       "(array, array-like, proxy); non-trivial = the state was reached through a change of storage form or is "
+    for k in ("I32", "F64", "EL", "SE", "SP"):
+        if len(kinds.get(k, ())) < 40:
+            raise vlib.ToolError(f"vacuity guard: storage form {k} met only {len(kinds.get(k, ()))} operation kinds")
+
+    # ---- seeded long histories: TLC -simulate (depth 15) and random histories evaluated by TLC in oracle mode
+    sim_count = 0
+    if tier == "thorough":
+        lits = [n["h"][0]["op"]["els"] for n in all_nodes if len(n["h"]) == 1]
+        alphabet = {}
+        for nd in all_nodes:
+            for st in nd["steps"]:
+                alphabet.setdefault(json.dumps(st["op"], sort_keys=True), st["op"])
+        ops = [alphabet[k] for k in sorted(alphabet)]
+        rs, outs = emit("MCArray_sim.cfg", 4, 1200, simulate=40, depth=16, tseed=vlib.seed())
+        vlib.tlc_must_pass(rs, "ArrayStorage/-simulate")
+        sim = [h for h in outs["REPLAY"]]
+        cmds.append(rs["cmd"] + " -depth 16 -seed %d" % vlib.seed())
+        rng = random.Random(vlib.seed())
+        rnd = oracle(random_histories(rng, lits, ops, 1500, 15))
+        if len(sim) < 20:
+            raise vlib.ToolError("simulation produced too few behaviours")
+        report(ck, binary, check_linear(binary, sim + rnd, stats))
+        sim_count = len(sim) + len(rnd)
+        transitions += sum(len(h) - 1 for h in sim + rnd)
+        ck.sample({"simulated_history": ops_of(sim[0])[:6], "kinds": [s["kind"] for s in sim[0]][:6]})
+
+    for nd in all_nodes:
+        if len(nd["h"]) == 2 and nd["h"][0]["kind"] != nd["h"][1]["kind"]:
+            ck.sample({"history": ops_of(nd["h"]), "storage": [s["kind"] for s in nd["h"]],
+                       "operation": nd["steps"][-1]["op"], "expected_return": nd["steps"][-1]["ret"][:1],
+                       "expected_keys": [e[0] for e in nd["steps"][-1]["d"]["ix"]]}, cap=4)
+    ck.cov.update(states=states, transitions=transitions, traces_validated_against_impl=edges_total + sim_count,
+                  evaluations=stats["lines"], world_blocks=stats["blocks"], distinct_nontrivial=nt,
+                  checker_cmd="; ".join(cmds), forms_x_operation_kinds={k: len(v) for k, v in sorted(kinds.items())},
+                  exhaustive=True,
+                  rule="one replay per edge (state x operation) of the storage-shaped state graph, each executed on a real array, "
+                       "a Proxy-wrapped array, an equivalent array-like through Array.prototype.X.call and (named stores) an "
+                       "inline-cached code site; non-trivial = the state was reached through a change of storage form or is "
                        "sparse / has a non-default descriptor / is non-extensible / has a fixed length")
-    floor = 3000 if tier == "quick" else 20000
+    floor = 3000 if tier == "quick" else 50000
     if nt < floor:
         raise vlib.ToolError(f"vacuity guard: only {nt} non-trivial edges (< {floor})")
     ck.assumptions += ["Array.prototype / Object.prototype carry no index properties (default realm)",
-                       "storage form predicted by ArrayStorage.tla is not observed (no hook); forms are forced by the value mixes"]
+                       "the storage form predicted by ArrayStorage.tla is not observed in the engine (no hook yet); the value "
+                       "mixes force every form",
+                       "indices 0..3 and 7, values {0,1,2,10,1.5,-0,NaN,'a','g',object,undefined}; lengths < 2^31"]
     return ck.finish()
